@@ -267,3 +267,5 @@ func (r *RNG) Perm(n int) []int {
 	}
 	return p
 }
+
+func mustElementDecimal(v string) *dtpb.Decimal { return &dtpb.Decimal{Value: v} }
